@@ -6,6 +6,7 @@
    theorem each (C03, C10, C15, C16, C17, C18, C19). *)
 From PV Require Import Lib.Base.
 From PV Require Proofs.Glue_certs Proofs.Glue_enc_certs Proofs.Glue_xsw Proofs.Glue_quote Proofs.Glue_time Proofs.Glue_sigver.
+From PV Require Model.TimeUtil Proofs.TimeUtil_lemmas.
 Open Scope N_scope.
 
 (* ====================================================================================================
@@ -437,6 +438,25 @@ Theorem Glue_accepted_inside_allowance_is_expired_in_cache :
     CA.t_after (RS.now c) (CA.At nooa) = true /\ CA.t_before (RS.now c) (CA.At nooa) = false.
 Proof. exact accepted_inside_allowance_is_expired_in_cache. Qed.
 Print Assumptions Glue_accepted_inside_allowance_is_expired_in_cache.
+
+(* the same tests on the TEXTS the library receives (Model/TimeUtil.v: strptime, timegm, gmtime, tuple comparison): on a text
+   that str_to_time reads, time_util.before / after against the clock ARE not_past on timegm of the parsed value - the
+   already-parsed instant that MdStore.valid (C16), Cache.t_before / t_after (C19) and validate_on_or_after (C04) start from *)
+Theorem Glue_text_expiry_tests_are_one :
+  forall now s c, PV.Model.TimeUtil.str_to_time s = Ok (Some c) ->
+    let t := PV.Model.TimeUtil.timegm c in
+    PV.Model.TimeUtil.before now (PV.Model.TimeUtil.AText s) = Ok (not_past now t) /\
+    PV.Model.TimeUtil.after now (PV.Model.TimeUtil.AText s) = Ok (negb (not_past now t)) /\
+    MS.valid now (Some t) = not_past now t /\
+    CA.t_before now (CA.At t) = not_past now t /\ CA.t_after now (CA.At t) = negb (not_past now t) /\
+    (forall cfg, is_ok (RS.validate_on_or_after cfg (Some t)) = not_past (RS.now cfg) (t + RS.slack cfg)).
+Proof.
+  intros now s c H t. split; [exact (PV.Proofs.TimeUtil_lemmas.before_text now s c H)|].
+  split; [exact (PV.Proofs.TimeUtil_lemmas.after_text now s c H)|].
+  split; [apply mdstore_valid_is_not_past|]. split; [apply cache_tests_are_not_past|]. split; [apply cache_tests_are_not_past|].
+  intros cfg. apply response_lifetime_tests_are_not_past.
+Qed.
+Print Assumptions Glue_text_expiry_tests_are_one.
 End G4.
 
 (* ====================================================================================================
